@@ -206,9 +206,20 @@ C15Image(H, E, c, S) ==
   IF S.openql.status = "none" THEN {}
   ELSE IF S.openql.status = "duplicate-kernel" THEN {Fail("C15.duplicate_kernel", c, "export refused: duplicate kernel name")}
   ELSE IF S.openql.status # "ok" THEN {Fail("C15.export_error", c, S.openql.status)}
-  ELSE LET want == OpenQLImage(H, E, S, c)  got == S.openql.flat IN
+  ELSE LET \* what the statement leaves open is normalised away on both sides: "a barrier on its pair" names a set of qubits, and
+           \* "a phase update on both qubits" does not say which of the two comes first
+           QLess(a, b) == a[2] < b[2]
+           NormQ(s) ==
+             LET F[k \in 0..Len(s)] ==
+                   IF k = 0 THEN <<>>
+                   ELSE LET x == IF s[k].name = "barrier" THEN [s[k] EXCEPT !.targets = SortSeq(@, QLess)] ELSE s[k]  P == F[k-1] IN
+                        IF x.name = "update_ph" /\ Len(P) > 0 /\ P[Len(P)].name = "update_ph" /\ QLess(x.targets[1], P[Len(P)].targets[1])
+                        THEN [P EXCEPT ![Len(P)] = x] \o <<P[Len(P)]>>
+                        ELSE Append(P, x)
+             IN F[Len(s)]
+           want == NormQ(OpenQLImage(H, E, S, c))  got == NormQ(S.openql.flat)  dev == NormQ(DevSubFirst(H, E, S, c)) IN
        When(got = want,
-            Fail(IF got = DevSubFirst(H, E, S, c) THEN "C15.image.subprograms_first" ELSE "C15.image", c,
+            Fail(IF got = dev THEN "C15.image.subprograms_first" ELSE "C15.image", c,
                  <<"exported", Len(got), "expected", Len(want)>>))
        \cup When(S.openql.same_twice, Fail("C15.names", c, "two exports of the same circuit differ"))
        \* through the real OpenQL compiler (directed programs only): what it schedules for execution is, qubit by qubit, what
